@@ -9,6 +9,7 @@ package main
 import (
 	"bytes"
 	"context"
+	"encoding/base64"
 	"encoding/hex"
 	"encoding/json"
 	"errors"
@@ -16,6 +17,8 @@ import (
 	"fmt"
 	"net/url"
 	"os"
+	"reflect"
+	"runtime"
 	"strings"
 	"sync"
 	"time"
@@ -952,6 +955,167 @@ func concurrentIDs(ng, per int) (total int, dups []string, panics int, firstPani
 	return
 }
 
+// concurrentSigning: ONE FormatterFilter with a signer configured throughout and the type "t" listed; rotators keep calling
+// Rotate among three harness signers while processors format events of the listed type "t" and the unlisted type "u".
+// Every forwarded listed-type event must carry serialized and a serialized_hmac that is the result of ONE of the signers ever
+// installed on exactly the decoded serialized bytes (the signer in force before or after a rotation), and serialized must be
+// the stored document without the signature; unlisted events are never signed.
+type concSignResult struct {
+	Events, Unsigned, BadHmac, SignedUnlisted, Panics int
+	First                                             map[string]interface{} // the first offending event
+}
+
+func concurrentSigning(rotators, processors, per, maxprocs int) concSignResult {
+	if maxprocs > 0 {
+		defer runtime.GOMAXPROCS(runtime.GOMAXPROCS(maxprocs))
+	}
+	src, _ := url.Parse("https://conc.example")
+	tags := [][]byte{[]byte("A-"), []byte("B-"), []byte("C-")}
+	var sink [][]byte
+	var sinkMu sync.Mutex
+	mk := func(tag []byte) ce.Signer {
+		return func(_ context.Context, b []byte) (string, error) {
+			sinkMu.Lock()
+			sink = sink[:0] // the recorded inputs are not used here
+			sinkMu.Unlock()
+			return sigFn(tag, b), nil
+		}
+	}
+	node := &ce.FormatterFilter{Source: src, SignEventTypes: []string{"t"}, Signer: mk(tags[0])}
+	stop := make(chan struct{})
+	var rw sync.WaitGroup
+	for r := 0; r < rotators; r++ {
+		rw.Add(1)
+		go func(r int) {
+			defer rw.Done()
+			for i := 0; ; i++ {
+				select {
+				case <-stop:
+					return
+				default:
+				}
+				_ = node.Rotate(mk(tags[(i+r)%len(tags)]))
+				if i%64 == 0 {
+					runtime.Gosched()
+				}
+			}
+		}(r)
+	}
+	res := make([]concSignResult, processors)
+	var pw sync.WaitGroup
+	for g := 0; g < processors; g++ {
+		pw.Add(1)
+		go func(g int) {
+			defer pw.Done()
+			out := &res[g]
+			offend := func(reason, typ string, doc []byte, i int) {
+				if out.First == nil {
+					out.First = map[string]interface{}{"reason": reason, "event_type": typ, "goroutine": g, "event_index": i, "stored_document": string(doc),
+						"gomaxprocs": runtime.GOMAXPROCS(0), "payload": map[string]int{"n": i}}
+				}
+			}
+			for i := 0; i < per; i++ {
+				typ := "t"
+				if i%4 == 3 {
+					typ = "u"
+				}
+				func() {
+					defer func() {
+						if p := recover(); p != nil {
+							out.Panics++
+							offend(fmt.Sprint("panic: ", p), typ, nil, i)
+						}
+					}()
+					e := &el.Event{Type: el.EventType(typ), CreatedAt: time.Unix(int64(i), 0).UTC(), Payload: map[string]int{"n": i}}
+					fwd, err := node.Process(context.Background(), e)
+					if err != nil || fwd == nil {
+						return
+					}
+					out.Events++
+					doc, _ := e.Format("cloudevents-json")
+					var m map[string]interface{}
+					if decodeDoc(doc, &m) != nil {
+						out.BadHmac++
+						offend("stored document does not decode", typ, doc, i)
+						return
+					}
+					ser, hasSer := m["serialized"].(string)
+					mac, hasMac := m["serialized_hmac"].(string)
+					if typ == "u" {
+						if hasSer || hasMac {
+							out.SignedUnlisted++
+							offend("an unlisted type carries a signature", typ, doc, i)
+						}
+						return
+					}
+					if !hasSer || !hasMac {
+						out.Unsigned++
+						offend("a listed type was stored and forwarded without serialized / serialized_hmac although a signer was configured throughout", typ, doc, i)
+						return
+					}
+					raw, derr := base64.RawURLEncoding.DecodeString(ser)
+					ok := false
+					if derr == nil {
+						for _, tag := range tags {
+							if sigFn(tag, raw) == mac {
+								ok = true
+							}
+						}
+						// serialized is the stored document without the two signature members
+						var um map[string]interface{}
+						if decodeDoc(raw, &um) != nil {
+							ok = false
+						} else {
+							delete(m, "serialized")
+							delete(m, "serialized_hmac")
+							if !reflect.DeepEqual(m, um) {
+								ok = false
+							}
+						}
+					}
+					if !ok {
+						out.BadHmac++
+						offend("serialized_hmac is the result of none of the installed signers on the decoded serialized bytes (or serialized is not the document)", typ, doc, i)
+					}
+				}()
+			}
+		}(g)
+	}
+	pw.Wait()
+	close(stop)
+	rw.Wait()
+	var tot concSignResult
+	for _, r := range res {
+		tot.Events += r.Events
+		tot.Unsigned += r.Unsigned
+		tot.BadHmac += r.BadHmac
+		tot.SignedUnlisted += r.SignedUnlisted
+		tot.Panics += r.Panics
+		if tot.First == nil {
+			tot.First = r.First
+		}
+	}
+	return tot
+}
+
+func genConcSign(em *emitter, per int) {
+	for _, mp := range []int{0, 1} { // the default GOMAXPROCS and a single P
+		r := concurrentSigning(2, 6, per, mp)
+		id := em.next
+		em.next++
+		em.flush()
+		em.cf.Add(fmt.Sprintf("CConcSign %d %d %d %d %d %d", id, r.Events, r.Unsigned, r.BadHmac, r.SignedUnlisted, r.Panics))
+		js, _ := json.Marshal(map[string]interface{}{"id": id, "gen": "concurrent-signing", "gomaxprocs_setting": mp, "rotating_goroutines": 2, "processing_goroutines": 6,
+			"events_per_goroutine": per, "events_forwarded": r.Events, "listed_events_stored_unsigned": r.Unsigned, "signatures_not_verifying": r.BadHmac,
+			"unlisted_events_signed": r.SignedUnlisted, "panics": r.Panics, "first_offending_event": r.First})
+		em.side.Write(js)
+		em.side.Write([]byte("\n"))
+		em.stats[fmt.Sprintf("concurrent-signing-events(gomaxprocs=%d)", mp)] = r.Events
+		em.stats["concurrent-signing-unsigned-listed"] += r.Unsigned
+		em.stats["cases"]++
+	}
+}
+
 func genConc(em *emitter, ng, per int) {
 	total, dups, panics, first := concurrentIDs(ng, per)
 	id := em.next
@@ -1037,6 +1201,14 @@ func main() {
 			fmt.Println(ret.lit())
 			return
 		}
+		if wrapper.Case.Gen == "concurrent-signing" {
+			for _, mp := range []int{0, 1} {
+				r := concurrentSigning(2, 6, *concPer, mp)
+				js, _ := json.Marshal(r)
+				fmt.Printf("concurrent Rotate/Process (GOMAXPROCS setting %d): %s\n", mp, js)
+			}
+			return
+		}
 		if wrapper.Case.Gen == "concurrent-ids" {
 			total, dups, panics, first := concurrentIDs(8, *concPer)
 			fmt.Printf("concurrent fresh ids: %d events, ids handed out more than once: %q, panics: %d %s\n", total, dups, panics, first)
@@ -1086,6 +1258,7 @@ func main() {
 			genRandom(em, r.Fork(), *nRandom, *depth)
 		case "conc":
 			genConc(em, 8, *concPer)
+			genConcSign(em, *concPer)
 		case "hist":
 			genHistGrid(em)
 			genHistRandom(em, r.Fork(), *nHist)
